@@ -149,7 +149,7 @@ def _build_run(labdir, log):
         return None, out
     rc, out2 = _sh([os.path.join(BUILD, "cargo", "debug", "spl-verif-macrolab")], cwd=labdir)
     if rc != 0:
-        return None, "macro-lab program failed: " + out2[-500:]
+        return None, "macro-lab program failed: " + out2[:1500]
     return out2.split("\n")[:-1], out
 
 
@@ -209,6 +209,7 @@ def macro_lab_c19(pid, tier, seed, rundir, log):
     main = ["#![allow(dead_code, non_camel_case_types, clippy::all)]", "use solana_program_error::{ProgramError, ToStr};",
             "fn hx(s: &str) -> String { if s.is_empty() { \"-\".into() } else { s.bytes().map(|b| format!(\"{:02x}\", b)).collect() } }"]
     cases = []
+    heads = {}
     for k, (kind, name, start, vs) in enumerate(items):
         body = []
         for (vn, disc, msg) in vs:
@@ -224,11 +225,19 @@ def macro_lab_c19(pid, tier, seed, rundir, log):
         elif kind == "spl_crate":
             head = "#[spl_program_error::spl_program_error(solana_program_error = \"solana_program_error\")]\n"
         elif kind == "spl_hash":
-            head = "#[spl_program_error::spl_program_error(hash_error_code_start = %d)]\n" % start
+            # the two arguments of the attribute, alone and together in either order
+            args = ["hash_error_code_start = %d" % start]
+            r = (k + rng.randrange(3)) % 3
+            if r == 1:
+                args.append("solana_program_error = \"solana_program_error\"")
+            elif r == 2:
+                args.insert(0, "solana_program_error = \"solana_program_error\"")
+            head = "#[spl_program_error::spl_program_error(%s)]\n" % ", ".join(args)
         elif kind == "derive":
             head = "#[derive(Clone, Debug, Eq, PartialEq, thiserror::Error, num_derive::FromPrimitive, spl_program_error::IntoProgramError, spl_program_error::ToStr)]\n#[repr(u32)]\n"
         else:
             head = "#[derive(Clone, Debug, PartialEq, spl_program_error::ToStr)]\n#[repr(u32)]\n"
+        heads[k] = head.strip()
         src = "use spl_program_error::*;\n" + head + "pub enum %s {\n%s\n}\n" % (name, "\n".join(body))
         with open(os.path.join(labdir, "src", "item_%d.rs" % k), "w") as f:
             f.write(src)
@@ -279,8 +288,8 @@ def macro_lab_c19(pid, tier, seed, rundir, log):
             ",".join(_hexs(m.encode()) for m in msgs), "-" if kind == "tostr" else ",".join(_hexs(m.encode()) for m in msgs),
             "-" if kind == "tostr" else ",".join("ok" for _ in vs))
         if impl[k] != exp:
-            res["violations"].append("enum %s (%s): macro output `%s` differs from the declared mapping `%s`" % (name, kind, impl[k][:200], exp[:200]))
-            res["replay_lines"] = [cases[k]]
+            res["violations"].append("enum %s (%s, declared with `%s`): macro output `%s` differs from the declared mapping `%s`" % (name, kind, heads.get(k, ""), impl[k][:200], exp[:200]))
+            res["replay_lines"] = ["# " + heads.get(k, ""), cases[k]]
         if k < len(model) and model[k] != impl[k]:
             res["ties_broken"].append("macro-lab C19 item %d: model `%s` vs macro `%s`" % (k, model[k][:160], impl[k][:160]))
             res.setdefault("replay_lines", [cases[k]])
@@ -291,7 +300,13 @@ def macro_lab_c19(pid, tier, seed, rundir, log):
     wname = "Wrong" + _ident(rng)
     right = _hashed_start(wname)[0]
     with open(os.path.join(wrongdir, "src", "main.rs"), "w") as f:
-        f.write("use spl_program_error::*;\n#[spl_program_error(hash_error_code_start = %d)]\npub enum %s {\n    #[error(\"a\")]\n    A,\n}\nfn main() {}\n" % (right ^ 1, wname))
+        wargs = ["hash_error_code_start = %d" % (right ^ 1)]
+        wr = rng.randrange(3)
+        if wr == 1:
+            wargs.append("solana_program_error = \"solana_program_error\"")
+        elif wr == 2:
+            wargs.insert(0, "solana_program_error = \"solana_program_error\"")
+        f.write("use spl_program_error::*;\n#[spl_program_error(%s)]\npub enum %s {\n    #[error(\"a\")]\n    A,\n}\nfn main() {}\n" % (", ".join(wargs), wname))
     rc, out = _sh(["cargo", "build", "--offline", "--quiet"], cwd=wrongdir)
     log.write("$ cargo build (wrong hashed start)\n%s\n" % out[-1500:])
     res["evaluations"] += 1
@@ -381,8 +396,15 @@ def macro_lab_c18(pid, tier, seed, rundir, log):
     if impl is None:
         bad = _failing_items(out)
         errs = [l for l in out.split("\n") if l.startswith("error")]
-        res["violations"].append("the SplDiscriminate derive output does not compile for items %s (generics %s): %s" % (
-            bad, [GENERICS[i % len(GENERICS)][0] for i in bad], errs[0] if errs else out[-300:]))
+        if out.startswith("macro-lab program failed"):
+            # compiled, but computing a discriminator at run time failed (the crate is built as a downstream user
+            # builds it: spl-discriminator is the only workspace crate among its dependencies)
+            pm = re.search(r"panicked at [^\n]*\n([^\n]*)", out)
+            res["violations"].append("the run-time discriminator of the first item could not be computed in a crate that depends on spl-discriminator alone: %s" % (
+                pm.group(1).strip() if pm else out[-300:]))
+        else:
+            res["violations"].append("the SplDiscriminate derive output does not compile for items %s (generics %s): %s" % (
+                bad, [GENERICS[i % len(GENERICS)][0] for i in bad], errs[0] if errs else out[-300:]))
         res["replay_lines"] = [cases[i] for i in bad if i < len(cases)] or cases[:1]
         return res
     model = _model_lines(cases)
